@@ -85,10 +85,8 @@ class Flow:
 
     def delivering(self, conds):
         """False for the path on which the input child reports nothing."""
-        for c in conds:
-            if c[0] == 'op' and c[1] == 'not' and c[2][0][0] == 'is_some' and c[2][0][1][0] == 'childlast':
-                return False
-        return True
+        from .terms import nondelivering
+        return not nondelivering(conds)
 
     def resolve(self, t, conds):
         """Resolve phi nodes inside t whose condition is decided by the (integer part of the) case conditions."""
@@ -142,6 +140,10 @@ class Flow:
                     info['V'] = leaf[2]
                     if inner[0] == 'phi' and inner[2] == (pop, ('in', q)) and inner[3] == ('in', q):
                         info['G'] = inner[1]
+                        info['E'] = (pop[4:], ('in', q))
+                        info['shape'] = 'pop-then-push'
+                    elif inner[0] == 'phi' and inner[3] == (pop, ('in', q)) and inner[2] == ('in', q):
+                        info['G'] = neg_cond(inner[1])
                         info['E'] = (pop[4:], ('in', q))
                         info['shape'] = 'pop-then-push'
                     elif inner == (pop, ('in', q)):
